@@ -128,6 +128,17 @@ class C11(Check):
                                   for _ in range(rng.randrange(1, 4))],
                          activate=True, stream=rng.choice([0.4, 1.5]), user_disconnect=None, faulty=False, focus=True)
             faults = []
+        elif rng.random() < 0.15:
+            # focus: requests with one key at the same instant (all but the first are parked), the reply to the first
+            # arrives just when the user shuts the connection down: the parked ones must be released at once
+            kind = rng.choice(['ping', 'read', 'change'])
+            key = 'x' if kind == 'ping' else 'm:_p0'
+            delay = rng.choice([0.01, 0.05, 0.3])
+            ops = [{'task': t, 'kind': kind, 'dt': rng.choice([0, 0, 0.001]), 'key': key} for t in range(ncallers)]
+            shape.update(replies=[{'kind': 'ok', 'delay': delay}], activate=rng.random() < 0.5, stream=None,
+                         user_disconnect=round(delay + rng.choice([-0.002, -0.0005, 0, 0.0002, 0.001, 0.005]), 4),
+                         faulty=False, focus='disconnect', line_gaps=rng.choice([0, 3, 5, 8]))
+            faults = []
         return {'shape': shape, 'ops': ops, 'faults': faults}
 
     def shrink_candidates(self, case):
@@ -466,6 +477,18 @@ class C11(Check):
                                                  f'connection was lost ({why}) at t={t:.2f}; released only at '
                                                  f't={r["t1"]:.2f} with TimeoutError'))
                             break
+                    # shut down by the user while waiting: released promptly with a connection error (judged in runs
+                    # without any fault of the peer, for requests issued before the disconnect began)
+                    if not any_fault:
+                        for d in user_dis:
+                            if d.get('final') or 't1' not in d:
+                                continue
+                            if r['t0'] < d['t0'] - 0.01 and r['t1'] > d['t1'] + 3.0:
+                                res.append(Violation('C11.not-released', 'user-disconnect',
+                                                     f'caller {r["task"]} uid {r["uid"]} ({r["op"]}) waited from t={r["t0"]:.3f}; '
+                                                     f'the user shut the connection down at t={d["t0"]:.3f}..{d["t1"]:.3f}; the '
+                                                     f'caller was released only at t={r["t1"]:.3f} with TimeoutError'))
+                                break
                 elif result[4] or etype in ('CommunicationFailedError',):
                     if not any_fault and first_user > r['t1']:
                         res.append(Violation('C11.spurious-connection-error', etype,
